@@ -255,6 +255,43 @@ pub fn run(ctx: &Ctx) {
         },
     );
 
+    ctx.exhaustive(
+        "special_round_values_at_every_round",
+        "blocks crafted by running the rounds backwards so that, at round i of encryption (resp. decryption), the round transform's input, its output or the new state word is a special word \
+         (T input 0 / FFFFFFFF / the S-box preimages of 00 and FF in all lanes; T output 0 (the state word does not move), 1, 2^31, FFFFFFFF, equal to X_i (new word 0), complement of X_i (new word FFFFFFFF)); every i in 0..32, both directions, 2 keys",
+        || {
+            let mut v = Vec::new();
+            for kx in 0..2u64 {
+                let key: [u8; 16] = if kx == 0 { arr16(&hex::decode(SUITE_KEY).unwrap()) } else { arr16(&expand_bytes(ctx.seed ^ 0x5c2f, 16)) };
+                let r = rsm4::Sm4::new(&key);
+                for dec in [false, true] {
+                    for i in 0..32usize {
+                        let rk = if dec { r.rk[31 - i] } else { r.rk[i] };
+                        let fill = expand_bytes(((i as u64) << 3 | kx << 1 | dec as u64) ^ 0x0f1e, 12);
+                        let w = |t: usize| u32::from_be_bytes([fill[4 * t], fill[4 * t + 1], fill[4 * t + 2], fill[4 * t + 3]]);
+                        let (x0, x1, x2) = (w(0), w(1), w(2));
+                        let with_tin = |tin: u32, x0: u32| r.block_with_state_at_round(i, [x0, x1, x2, tin ^ rk ^ x1 ^ x2], dec);
+                        let mut tins: Vec<(u32, u32)> = Vec::new();
+                        for t in [0u32, 0xFFFF_FFFF, rsm4::t_data_inv(0), rsm4::t_data_inv(0xFFFF_FFFF), rsm4::t_data_inv(1), rsm4::t_data_inv(0x8000_0000)] {
+                            tins.push((t, x0));
+                        }
+                        // S-box preimage of FF in all lanes
+                        let pre_ff = (0..256u32).find(|b| rsm4::sbox()[*b as usize] == 0xFF).unwrap() * 0x0101_0101;
+                        tins.push((pre_ff, x0));
+                        // new state word 0 / FFFFFFFF: X_i = T(tin) (resp. its complement)
+                        tins.push((w(1) ^ 0x1234_5678, rsm4::t_data(w(1) ^ 0x1234_5678)));
+                        tins.push((w(2) ^ 0x9abc_def0, !rsm4::t_data(w(2) ^ 0x9abc_def0)));
+                        for (tin, x0) in tins {
+                            v.push(KB { key: Hex(key.to_vec()), block: Hex(with_tin(tin, x0).to_vec()) });
+                        }
+                    }
+                }
+            }
+            v
+        },
+        check_kb,
+    );
+
     ctx.generated(
         "generated_key_block",
         "proptest (key, block) from uniform / repeated-byte / single-bit / single-zero-bit",
